@@ -286,6 +286,48 @@ def fam_plist(budget):
             yield {'kind': 'plist', 'a': a, 'b': b, 'opt': list(opt)}
 
 
+def fam_plist_renamed(tier):
+    """plist root mappings of two items with renamed keys and values of very different length (the a-priori cap of the
+    wrapping EditCollection, from-size + to-size + 1, lies below the sum of its parts' upper bounds)."""
+    keys = ('w', 'h', 'x', 'title')
+    vals = ('0', '1', 'Copyright 2020 Example Corp.') if tier != 'quick' else ('0', 'Copyright 2020 Example Corp.')
+    docs = []
+    for k1, k2 in itertools.combinations(keys, 2):
+        for v1 in vals:
+            for v2 in vals:
+                docs.append({k1: v1, k2: v2})
+    for a in docs:
+        for b in docs:
+            for ds in DICT_STRATEGIES:
+                yield {'kind': 'plist', 'a': a, 'b': b, 'opt': [ds, 'on']}
+
+
+def fam_xml_attrs(tier):
+    """Elements whose attributes (multi-character names and values) are renamed / changed at the document element and
+    one and two levels below it."""
+    attribs = ({}, {'id': 'hello world'}, {'name': 'hello there'}, {'id': 'hello', 'name': 'x'})
+    els = []
+    for ar in attribs:
+        for ac in attribs:
+            els.append({'tag': 'r', 'attrib': dict(ar), 'children': [{'tag': 'c', 'attrib': dict(ac)}]})
+    for ac in attribs:
+        for ag in attribs:
+            els.append({'tag': 'r', 'children': [{'tag': 'c', 'attrib': dict(ac), 'children': [{'tag': 'g', 'attrib': dict(ag)}]}]})
+    for e in els:
+        strip_empty_attrib(e)
+    for a in els:
+        for b in els:
+            for ds in DICT_STRATEGIES:
+                yield {'kind': 'xml', 'a': a, 'b': b, 'opt': [ds, 'on']}
+
+
+def strip_empty_attrib(e):
+    if not e.get('attrib'):
+        e.pop('attrib', None)
+    for c in e.get('children') or []:
+        strip_empty_attrib(c)
+
+
 def fam_strings(alphabet, maxlen):
     ss = list(strings(alphabet, maxlen))
     for a in ss:
@@ -311,6 +353,9 @@ def families(tier, docs_budget=None):
         ('lists_leaf', fam_lists(4 if q else 5, (1, 2))),
         ('lists_nested', fam_lists(3 if q else 4, ([1], [2]))),
         ('lists_mixed', fam_lists(3 if q else 4, (1, [1], None))),
+        # numbers that are equal as Python values but differ as text / type (1 == 1.0 == True): node equality and edit
+        # cost disagree on them
+        ('lists_numeric', fam_lists(3, (1, 1.0, 2) if q else (1, 1.0, 2, True))),
         ('lists_2level', fam_lists_2level(2, 2) if q else fam_lists_2level(2, 2, (1, 2, None))),
         ('long_lists', fam_long_lists(262 if q else 300)),
         ('dicts', fam_dicts(('a', 'ab', 'c'), (1, 2))),
@@ -321,6 +366,8 @@ def families(tier, docs_budget=None):
         ('xml', fam_xml(tier)),
         ('csv', fam_csv(tier)),
         ('plist', fam_plist(4 if q else 5)),
+        ('plist_renamed', fam_plist_renamed(tier)),
+        ('xml_attrs', fam_xml_attrs(tier)),
         ('strings', fam_strings('ab', 3 if q else 4)),
         ('pyobj', fam_pyobj(tier)),
     ]
